@@ -110,6 +110,61 @@ def _dict_write(op):
         (op[0] == "setdefault" and op[4] is not None and isinstance(op[4]["d"], dict))
 
 
+def _has_at(tree, p):
+    for k in p:
+        if not isinstance(tree, dict) or k not in tree:
+            return False
+        tree = tree[k]
+    return True
+
+
+def _strip_at(tree, p):
+    """a copy of the level without whatever it has at p"""
+    if not p or not isinstance(tree, dict) or p[0] not in tree:
+        return tree
+    out = dict(tree)
+    if len(p) == 1:
+        del out[p[0]]
+    else:
+        out[p[0]] = _strip_at(tree[p[0]], p[1:])
+    return out
+
+
+def _put_at(tree, p, v):
+    """a copy of the level with v at p (sections above created)"""
+    out = dict(tree)
+    if len(p) == 1:
+        out[p[0]] = v
+    else:
+        sub = tree.get(p[0])
+        out[p[0]] = _put_at(sub if isinstance(sub, dict) else {}, p[1:], v)
+    return out
+
+
+def home_keys(d, path=(), out=None):
+    """task id -> the names of the sub-collections from the root to where it is bound"""
+    out = {} if out is None else out
+    for _, t in d["tasks"]:
+        out.setdefault(t["id"], path)
+    for k, s in d["subs"]:
+        home_keys(s, path + (k,), out)
+    return out
+
+
+def names_by_task(coll, d):
+    """task id -> the dotted names (primaries, aliases, default shortcuts) that resolve to it"""
+    out = {}
+    for nm in ns.resolvable_names(d):
+        try:
+            out.setdefault(ns.task_id(coll[nm]), []).append(nm)
+        except Exception:  # a collection without a default task
+            pass
+    return out
+
+
+DELETING = ("del", "pop", "popitem", "clear")
+
+
 class C19(Prop):
     id = "C19"
     corr_module = "Corr.C19Corr"
@@ -122,7 +177,13 @@ class C19(Prop):
             "pre/post hooks between tasks of different sub-collections x per-task bodies of 0-3 edits (leaf writes to "
             "existing and new settings, deletions of settings and of whole sections, pops, reads; item and attribute "
             "syntax; new settings whose variable name an existing setting has) x 0-3 requests by name/alias/shortcut (or none: default task), 20% of the multi-request sessions as two execute() calls on one Executor x dedupe on/off x a different "
-            "environment for every executed call; observed: deep view on entry and on exit of every body; non-trivial = "
+            "environment for every executed call; + the there-and-back family (a systematic block first in every run, 10% of the "
+            "random cases, 8% directed over random trees): a body deletes (del / pop / pop with default / popitem / clear; a leaf, "
+            "a setting inside a section, a whole section) what only ONE place supplies (its own collection, an outer collection of its "
+            "path, the root collection, the defaults), tasks of other namespaces run whose settings lack the key (direct requests, "
+            "default shortcuts, as post- or pre-task, root tasks), then the first namespace again (a sibling task, the same task "
+            "with dedupe off or in a second execute()), optionally writing the key again and going round once more; "
+            "observed: deep view on entry and on exit of every body; non-trivial = "
             ">=2 bodies executed, from >=2 different collections, and >=1 successful edit before the last body")
     trusted_base = [
         "Coq 8.16.1 kernel + vm_compute (shard evaluation)",
@@ -382,23 +443,292 @@ class C19(Prop):
             envs = [dict(e, **{var: "1"}) for e in envs]        # ... and the variable IS set: C16's refusal
         return dict(case, bodies=bodies, requests=[names[ta], names[tb]], envs=envs, hooks={})
 
-    def generate(self, rng, tier, n):
-        for _ in range(n):
-            case = self._gen(rng)
+    # ---- there and back ----------------------------------------------------------
+    # A task deletes a setting that only ONE place supplies (its own collection, an outer collection
+    # of its path, the root collection, the defaults), tasks of OTHER namespaces run (their
+    # settings lack the deleted key: the re-merge finds nothing to hide), then the first
+    # namespace is executed again: the deletion must still be in force.
+    BACK_SHAPES = ("direct", "repeat", "split", "post", "pre", "shortcut", "rewrite")
+    BACK_VICTIMS = ("leaf", "top", "section")
+    BACK_HOWS = ("del", "pop", "popd", "popitem", "clear")
+    BACK_SUPPLIERS = ("own", "own", "outer", "root", "defaults")
+
+    def _safe_op(self, rng, sch):
+        for _ in range(20):
+            op = self._gen_op(rng, sch)
+            if not _dict_write(op) and not (len(op) > 3 and isinstance(op[3], str) and "_" in op[3]):
+                return op
+        return ["get", "item", [], "nothing"]
+
+    def _deletion(self, rng, sch, how, fl, p, val):
+        """the edit that removes the victim p (a leaf or a section, as instantiated by val)"""
+        kp, k = list(p[:-1]), p[-1]
+        if isinstance(val, dict):
+            leaves = [q for q, _ in gt.leaf_paths(gt.unjson(val))]
+            if how in ("popitem", "clear"):
+                return [how, fl, list(p)]
+            if leaves and rng.random() < 0.4:
+                # a setting INSIDE the section only this place supplies
+                q = rng.choice(leaves)
+                kp, k = list(p) + list(q[:-1]), q[-1]
+        elif how in ("popitem", "clear"):
+            if not kp:
+                how = "del"
+            else:
+                return [how, fl, kp]
+        if how == "popd":
+            return ["pop", fl, kp, k, {"d": gt.jsonable(gt.leaf(rng, "is"))}]
+        return [how if how in ("del", "pop") else "del", fl, kp, k]
+
+    def _back_case(self, rng, shape=None, victim=None, how=None, supplier=None):
+        shape = shape or rng.choice(self.BACK_SHAPES)
+        victim = victim or rng.choice(self.BACK_VICTIMS)
+        how = how or rng.choice(self.BACK_HOWS)
+        supplier = supplier or rng.choice(self.BACK_SUPPLIERS)
+        sch = cc.schema(rng, depth=rng.choice([2, 3]), width=3, kinds="nbis", p_section=0.5)
+        free = [k for k in cc.SAFE_KEYS if k not in sch]
+        rng.shuffle(free)
+        if not any(isinstance(v, dict) for v in sch.values()):
+            sch[free.pop()] = {free.pop(): rng.choice("bis"), free.pop(): rng.choice("nbis")}
+        if all(isinstance(v, dict) for v in sch.values()):
+            sch[free.pop()] = rng.choice("bis")
+        paths = list(cc.schema_paths(sch))
+        if victim == "leaf":
+            cands = [q for q, sec in paths if not sec and len(q) >= 2]
+        elif victim == "top":
+            cands = [q for q, sec in paths if not sec and len(q) == 1]
+        else:
+            cands = [q for q, sec in paths if sec]
+        p = rng.choice(cands)
+        sub = cc.sch_kind(sch, p)
+        if isinstance(sub, dict):
+            val = gt.jsonable(cc.instance(rng, sub, p_keep=1.0, same_kind=1.0))
+            for k in list(val):
+                if len(val) > 1 and rng.random() < 0.25:
+                    del val[k]
+        else:
+            val = gt.jsonable(gt.leaf(rng, sub))
+        nested = supplier == "outer" or rng.random() < 0.3
+        inst = lambda keep: gt.jsonable(cc.instance(rng, sch, p_keep=keep, same_kind=1.0))
+        lv = {"R": inst(0.5), "A": inst(0.6), "AI": inst(0.5), "B": inst(0.6), "C": inst(0.5),
+              "D": inst(0.6), "O": inst(0.25)}
+        sup = {"own": "AI" if nested else "A", "outer": "A", "root": "R", "defaults": "D"}[supplier]
+        for k in lv:
+            lv[k] = _put_at(lv[k], p, val) if k == sup else _strip_at(lv[k], p)
+        # ---- the tree: root{t0, a{[inner{]ta, ta2[}]}, b{tb}, [c{tc}]} -------------------
+        with_c = rng.random() < 0.4
+        roles = ["t0", "ta", "ta2", "tb"] + (["tc"] if with_c else [])
+        rng.shuffle(roles)
+        hook_to = rng.choice(["tb", "t0"] + (["tc"] if with_c else []))
+        src = {"post": "ta", "pre": "ta2"}.get(shape)
+        if src is not None and roles.index(src) > roles.index(hook_to):
+            i, j = roles.index(src), roles.index(hook_to)
+            roles[i], roles[j] = roles[j], roles[i]
+        tid = dict((r, i) for i, r in enumerate(roles))
+        tn = rng.sample(ns.TASK_NAMES, 5)
+        cn = rng.sample(ns.COLL_NAMES, 4)
+
+        def item(role, nm, default=None):
+            al = rng.sample(ns.ALIASES, 1) if rng.random() < 0.2 else []
+            return {"task": {"id": tid[role], "name": nm, "aliases": [], "default": False},
+                    "bind": None, "aliases": al, "default": default}
+
+        def coll(nm, cfg, items, default=False):
+            return {"coll": {"name": nm, "auto_dash": True, "config": cfg, "items": items},
+                    "bind": None, "default": default}
+        ta_default = True if (shape == "shortcut" or rng.random() < 0.5) else None
+        ta2_outer = nested and supplier == "outer" and rng.random() < 0.4
+        mine = [item("ta", tn[1], ta_default)] + ([] if ta2_outer else [item("ta2", tn[2])])
+        rng.shuffle(mine)
+        if nested:
+            a_items = [coll(cn[3], lv["AI"], mine, default=(shape == "shortcut" or rng.random() < 0.5))]
+            if ta2_outer:
+                a_items.append(item("ta2", tn[2]))
+            rng.shuffle(a_items)
+        else:
+            a_items = mine
+        tops = [item("t0", tn[0], True if rng.random() < 0.5 else None),
+                coll(cn[0], lv["A"], a_items),
+                coll(cn[1], lv["B"], [item("tb", tn[3], True if rng.random() < 0.5 else None)])]
+        if with_c:
+            tops.append(coll(cn[2], lv["C"], [item("tc", tn[4])]))
+        rng.shuffle(tops)
+        spec = {"name": None, "auto_dash": True, "config": lv["R"], "items": tops}
+        built, st = ns.build_and_dump(spec)
+        if built is None:
+            return None
+        d = st["ok"]
+        byt = names_by_task(built, d)
+        prim = primary_names(d)
+        shortcuts = set()
+
+        def walk(dd, pre):
+            for k, s_ in dd["subs"]:
+                shortcuts.add(pre + k)
+                walk(s_, pre + k + ".")
+        walk(d, "")
+
+        def name_of(role, shortcut=False):
+            names = byt.get(tid[role]) or [prim[tid[role]]]
+            sc = [x for x in names if x in shortcuts]
+            if shortcut and sc:
+                return rng.choice(sc)
+            plain = [x for x in names if x not in shortcuts] or names
+            return rng.choice(plain) if rng.random() < 0.8 else rng.choice(names)
+        fl = rng.choice(["item", "item", "attr"])
+        dl = self._deletion(rng, sch, how, fl, p, val)
+        gone = tuple(dl[2]) + ((dl[3],) if len(dl) > 3 else ())
+        dedupe, split, hooks = True, 0, {}
+        seq = ["ta", "tb", "ta2"]
+        bodies = {}
+        if shape == "repeat":
+            seq, dedupe = ["ta", rng.choice(["tb", "t0"]), "ta"], False
+        elif shape == "split":
+            seq, split = ["ta", "tb", "ta"], rng.choice([1, 2])
+        elif shape in ("post", "pre"):
+            seq = ["ta", "ta2"]
+            hooks = {str(tid[src]): {"pre": [tid[hook_to]] if shape == "pre" else [],
+                                     "post": [tid[hook_to]] if shape == "post" else []}}
+        elif shape == "rewrite" and dl[0] in ("del", "pop") and not isinstance(cc.sch_kind(sch, gone), dict):
+            seq, dedupe = ["ta", "tb", "ta2", rng.choice(["tb", "t0"]), "ta"], False
+            bodies[str(tid["ta2"])] = [["set", fl, list(gone[:-1]), gone[-1],
+                                        gt.jsonable(gt.leaf(rng, cc.sch_kind(sch, gone)))]]
+        if not dedupe and rng.random() < 0.3:
+            seq = seq + [rng.choice(["tb", "t0"]), "ta2"]
+        reqs = [name_of(r, shortcut=(shape == "shortcut" and r != "ta2")) for r in seq]
+        mine_ops = [dl]
+        if rng.random() < 0.3:
+            mine_ops.insert(0, self._safe_op(rng, sch))
+        if rng.random() < 0.3:
+            mine_ops.append(self._safe_op(rng, sch))
+        bodies[str(tid["ta"])] = mine_ops
+        if str(tid["ta2"]) not in bodies and len(gone) >= 1 and len(dl) > 3 and rng.random() < 0.4:
+            bodies[str(tid["ta2"])] = [["get", fl, list(gone[:-1]), gone[-1]]]
+        if rng.random() < 0.3:
+            bodies[str(tid["tb"])] = [self._safe_op(rng, sch)]
+        bodies = dict((t, self._fix_ops(ops)) for t, ops in bodies.items())
+        overrides = lv["O"]
+        if not dedupe:
+            overrides = dict(overrides, tasks={"dedupe": False})
+        envs = [cc.env_for(rng, sch, p_set=rng.choice([0.0, 0.2, 0.5]), p_bad=0.0) for _ in range(rng.randint(1, 4))]
+        case = {"script": spec, "hooks": hooks, "bodies": bodies, "requests": reqs, "dedupe": dedupe,
+                "via_ctx": rng.random() < 0.5, "req_form": rng.choice(["str", "pair", "ctx", "ctx"]),
+                "init": {"defaults": lv["D"], "overrides": overrides}, "envs": envs}
+        if split:
+            case["split"] = split
+        return case
+
+    def _back_block(self, rng, per_shape=1):
+        """the systematic part: every shape x every kind of victim, the way of deleting and the
+        supplier rotating through all values"""
+        k = rng.randrange(1000)
+        for rep in range(per_shape):
+            for shape in self.BACK_SHAPES:
+                for victim in self.BACK_VICTIMS:
+                    k += 1
+                    how = self.BACK_HOWS[k % len(self.BACK_HOWS)]
+                    supplier = ("own", "own", "outer", "own", "root", "own", "defaults")[(k // 2) % 7]
+                    case = self._back_case(rng, shape, victim, how, supplier)
+                    if case is not None:
+                        yield case
+
+    def _directed_back(self, rng, case):
+        """over the random tree of the case: a task deletes a setting (or a whole section) that only
+        collections of ITS path supply -- not the defaults, the overrides, or any collection on the path of
+        a second task; the second task runs; then the first namespace again (another task of the
+        same collection, or the same task with dedupe off / in a second execute())"""
+        built, st = ns.build_and_dump(case["script"])
+        if built is None:
+            return case
+        d = st["ok"]
+        hm, hk = homes(d), home_keys(d)
+        byt = names_by_task(built, d)
+        tids = [t for t in hm if byt.get(t)]
+        rng.shuffle(tids)
+        for ta, tb in itertools.permutations(tids, 2):
+            if hk[ta] == hk[tb]:
+                continue
+            there = [gt.unjson(lvl) for lvl in hm[tb]]
+            cands = []
+            for lvl in hm[ta]:
+                for q, sec in _all_paths(gt.unjson(lvl)):
+                    if not any(_has_at(t, q) for t in there):
+                        cands.append((q, sec))
+            if not cands:
+                continue
+            secs = [c for c in cands if c[1]]
+            p, sec = rng.choice(secs) if secs and rng.random() < 0.4 else rng.choice(cands)
+            fl = rng.choice(["item", "attr"])
+            if sec and rng.random() < 0.4:
+                dl = [rng.choice(["clear", "popitem"]), fl, list(p)]
+            else:
+                dl = [rng.choice(["del", "del", "pop"]), fl, list(p[:-1]), p[-1]]
+            init = {"defaults": _strip_at(case["init"]["defaults"], p),
+                    "overrides": _strip_at(case["init"]["overrides"], p)}
+            twins = [t for t in tids if t != ta and hk[t] == hk[ta]]
+            bodies = dict(case["bodies"])
+            bodies[str(ta)] = self._fix_ops((bodies.get(str(ta), [])[:1] if rng.random() < 0.3 else []) + [dl])
+            bodies.pop(str(tb), None)
+            out = dict(case, hooks={}, init=init)
+            out.pop("split", None)
+            last = ta
+            if twins and rng.random() < 0.6:
+                last = rng.choice(twins)
+                bodies.pop(str(last), None)
             r = rng.random()
-            if r < 0.25:
+            if last != ta and r < 0.25 and tb > ta:
+                # the other namespace as a post-task of the deleting task
+                out["hooks"] = {str(ta): {"pre": [], "post": [tb]}}
+                reqs = [ta, last]
+            elif last != ta and r < 0.4 and tb > last:
+                out["hooks"] = {str(last): {"pre": [tb], "post": []}}
+                reqs = [ta, last]
+            else:
+                reqs = [ta, tb, last]
+            dedupe = case["dedupe"]
+            if last == ta:
+                if rng.random() < 0.5:
+                    dedupe = True
+                    out["split"] = rng.choice([1, 2])
+                else:
+                    dedupe = False
+            if not dedupe:
+                init["overrides"] = dict(init["overrides"], tasks={"dedupe": False})
+            elif "tasks" in init["overrides"]:
+                init["overrides"] = dict((k, v) for k, v in init["overrides"].items() if k != "tasks")
+            out.update(bodies=bodies, dedupe=dedupe, requests=[rng.choice(byt[t]) for t in reqs])
+            return out
+        return case
+
+    def _finish(self, rng, case):
+        case = _convertible_env(case)
+        if any(_dict_write(op) for ops in case["bodies"].values() for op in ops) and case["envs"] != [{}]:
+            case = dict(case, envs=[{}])      # (see _gen: dict-valued writes run without environment overrides)
+        if len(case["requests"]) >= 2 and case["dedupe"] and "split" not in case and rng.random() < 0.25:
+            # the requests handed to ONE Executor in two execute() calls: the session goes on
+            case = dict(case, split=rng.randint(1, len(case["requests"]) - 1))
+        return case
+
+    def generate(self, rng, tier, n):
+        # the systematic there-and-back sessions come first (every shape x every kind of victim)
+        for case in self._back_block(rng, per_shape=2 if tier == "quick" else 12):
+            yield self._finish(rng, case)
+        for _ in range(n):
+            r = rng.random()
+            if r < 0.10:
+                case = self._back_case(rng) or self._gen(rng)
+                yield self._finish(rng, case)
+                continue
+            case = self._gen(rng)
+            if r < 0.18:
+                case = self._directed_back(rng, case)
+            elif r < 0.40:
                 case = self._directed(rng, case)
-            elif r < 0.4:
+            elif r < 0.53:
                 case = self._directed_env(rng, case)
-            elif r < 0.47:
+            elif r < 0.60:
                 case = self._directed_clash(rng, case)
-            case = _convertible_env(case)
-            if any(_dict_write(op) for ops in case["bodies"].values() for op in ops) and case["envs"] != [{}]:
-                case = dict(case, envs=[{}])      # (see _gen: dict-valued writes run without environment overrides)
-            if len(case["requests"]) >= 2 and case["dedupe"] and rng.random() < 0.25:
-                # the requests handed to ONE Executor in two execute() calls: the session goes on
-                case = dict(case, split=rng.randint(1, len(case["requests"]) - 1))
-            yield case
+            yield self._finish(rng, case)
 
     def enumerate_small(self, tier):
         """root{k:{x:R,top:1}} > a{k:{x:A,a:1}} > t1 ; b{k:{x:B}} > t2 ; every hook relation between t1, t2 and a
@@ -424,6 +754,42 @@ class C19(Prop):
                        "envs": [{}, {"INVOKE_K_X": "7"}]}
                 if not ed:
                     break
+        yield from self._enumerate_back()
+
+    def _enumerate_back(self):
+        """there and back, small scope: root{k:{x:0,top:1}} > t0 ; a{k:{x:1,a:1}, own:{q:1,r:2}, solo:5} > t1, t3 ;
+        b{k:{x:2}} > t2 -- t1 deletes what only a supplies (every way of deleting), every itinerary through
+        another namespace and back to a (direct, the same task again with dedupe off, a second execute(), the
+        other namespace as post-/pre-task, the default shortcut), two environments"""
+        t = lambda i, nm: {"id": i, "name": nm, "aliases": [], "default": False}
+        it = lambda task, dflt=None: {"task": task, "bind": None, "aliases": [], "default": dflt}
+        sub = lambda nm, cfg, items: {"coll": {"name": nm, "auto_dash": True, "config": cfg, "items": items},
+                                      "bind": None, "default": False}
+        spec = {"name": None, "auto_dash": True, "config": {"k": {"x": 0, "top": 1}},
+                "items": [it(t(0, "t0"), True),
+                          sub("a", {"k": {"x": 1, "a": 1}, "own": {"q": 1, "r": 2}, "solo": 5}, [it(t(1, "t1"), True), it(t(3, "t3"))]),
+                          sub("b", {"k": {"x": 2}}, [it(t(2, "t2"))])]}
+        edits = [[["del", "item", ["k"], "a"]], [["pop", "attr", ["k"], "a", None]], [["pop", "item", ["k"], "a", {"d": 0}]],
+                 [["del", "item", [], "own"]], [["del", "attr", ["own"], "q"]], [["clear", "item", ["own"]]],
+                 [["popitem", "item", ["own"]]], [["pop", "item", [], "solo", None]],
+                 [["del", "item", [], "solo"], ["del", "item", ["own"], "r"], ["set", "item", [], "marker", "m"]],
+                 [["clear", "item", ["k"]]], [["del", "item", ["k"], "top"]]]
+        # (requests, hooks, dedupe, split)
+        trips = [(["a.t1", "b.t2", "a.t3"], {}, True, 0), (["a.t1", "t0", "a.t3"], {}, True, 0),
+                 (["a", "b.t2", "a.t3"], {}, True, 0), (["a.t1", "b.t2", "a.t1"], {}, False, 0),
+                 (["a.t1", "b.t2", "a"], {}, True, 1), (["a.t1", "b.t2", "a.t1"], {}, True, 2),
+                 (["a.t1", "a.t3"], {"1": {"pre": [], "post": [2]}}, True, 0),
+                 (["a.t1", "t0", "a.t3"], {"0": {"pre": [], "post": [2]}}, True, 0),
+                 (["a.t1", "b.t2"], {"2": {"pre": [], "post": [3]}}, True, 0),
+                 (["a.t1", "t0", "a.t3"], {"0": {"pre": [2], "post": []}}, True, 0),
+                 (["a.t1", "b.t2", "t0", "a.t3", "b.t2", "a.t1"], {}, False, 0)]
+        for ed, (rq, hk, dd, sp), envs in itertools.product(edits, trips, ([{}], [{}, {"INVOKE_K_A": "7", "INVOKE_SOLO": "9"}])):
+            case = {"script": spec, "hooks": hk, "bodies": {"1": self._fix_ops(ed)}, "requests": rq, "dedupe": dd,
+                    "init": {"defaults": {"k": {"x": -1, "d": 0}}, "overrides": {} if dd else {"tasks": {"dedupe": False}}},
+                    "envs": envs}
+            if sp:
+                case["split"] = sp
+            yield case
 
     # ---- implementation ------------------------------------------------------
     def run_impl(self, case):
@@ -579,7 +945,25 @@ class C19(Prop):
         calls = self._calls(case, obs)
         if any(ca is None for _, ca in calls):
             kinds.append("hooks" if case["requests"] else "default")
+        if self._there_and_back(case, obs):
+            kinds.append("back")
         return ":".join(kinds)
+
+    def _there_and_back(self, case, obs):
+        """a body deleted something, a body of ANOTHER namespace ran, then the first namespace again"""
+        recs = obs["ok"]["records"]
+        hk = home_keys(obs["state"]["ok"])
+        for i, r in enumerate(recs):
+            if not any("err" not in o and op[0] in DELETING
+                       for op, o in zip(case["bodies"].get(str(r[0]), []), r[2])):
+                continue
+            away = False
+            for r2 in recs[i + 1:]:
+                if hk.get(r2[0]) != hk.get(r[0]):
+                    away = True
+                elif away:
+                    return True
+        return False
 
     def finding_of(self, case, obs, verdict=None):
         """Signatures (which mechanism is present) are read off the case; the judgement is made in Coq:
@@ -677,6 +1061,20 @@ class C19(Prop):
         for _ in range(25):
             if names:
                 yield dict(case, requests=[rng.choice(names) for _ in range(rng.randint(1, 3))])
+        # the same tree and settings, with a there-and-back itinerary around a deletion of a setting
+        # that only the first namespace supplies
+        for _ in range(25):
+            c2 = self._directed_back(rng, case)
+            if c2 is not case:
+                yield self._finish(rng, c2)
+        # the bodies of the case as they are, the requested tasks once more after the others
+        # (dedupe off, or a second execute()): whatever was deleted must stay deleted
+        if len(case["requests"]) >= 2 and not case["hooks"]:
+            again = case["requests"] + case["requests"][:1]
+            ov = dict(case["init"]["overrides"], tasks={"dedupe": False})
+            yield dict(case, requests=again, dedupe=False, split=0, init=dict(case["init"], overrides=ov))
+            if case["dedupe"]:
+                yield dict(case, requests=again, split=len(case["requests"]))
 
 
 class _NoArgs(dict):
